@@ -24,7 +24,7 @@ func c02Shapes() []MemShape {
 		}
 	}
 	// absolute
-	for _, d := range []int64{0, 1, 0x7f, 0x80, 0xff, 0x100, 0x0ff0, 0x7fff, 0x8000, 0xffff, 0x10000, 0x12345678} {
+	for _, d := range []int64{0, 1, 0x7f, 0x80, 0xff, 0x100, 0x0ff0, 0x7fff, 0x8000, 0xffff, 0x10000, 0x12345678, 0x7fffffff, 0x80000000, 0xfee00000, 0xffffffff} {
 		s = append(s, MemShape{ASize: 0, Base: -1, Index: -1, Disp: d, HasDisp: true})
 	}
 	// 32-bit
@@ -44,6 +44,15 @@ func c02Shapes() []MemShape {
 				for _, d := range c02Disps {
 					s = append(s, MemShape{ASize: 32, Base: b, Index: i, Scale: sc, Disp: d.v, HasDisp: d.has})
 				}
+			}
+		}
+	}
+	// 32-bit: addresses in the upper half of the 4 GiB space written as unsigned numbers
+	for _, b := range []int{0, 3, 5, 4} {
+		for _, d := range []int64{0x7fffffff, 0x80000000, 0xfee00000, 0xffffff80, 0xffffffff} {
+			s = append(s, MemShape{ASize: 32, Base: b, Index: -1, Scale: 1, Disp: d, HasDisp: true})
+			if b != 4 {
+				s = append(s, MemShape{ASize: 32, Base: b, Index: 6, Scale: 4, Disp: d, HasDisp: true})
 			}
 		}
 	}
